@@ -124,6 +124,8 @@ type out struct {
 	MapRangeSites  []mapSite      `json:"map_range_sites"`
 	IsIdentNonChar []int          `json:"ident_nonchars"`
 	Reserved       [][2]any       `json:"reserved"` // [name, token constant name]
+	TypeConsts     []string       `json:"type_consts"`     // names of the const block of base/type.go, in order
+	TTSCases       []string       `json:"tts_cases"`       // case labels of base.TypeToString's switch
 	USpace         [][2]int       `json:"uspace"`   // unicode.IsSpace as inclusive ranges
 	UDigit         [][2]int       `json:"udigit"`
 	UUpper         [][2]int       `json:"uupper"`
@@ -299,6 +301,29 @@ func main() {
 	o.UDigit = ranges(unicode.IsDigit)
 	o.UUpper = ranges(unicode.IsUpper)
 	o.ULower = ranges(unicode.IsLower)
+
+	// ---- base/type.go: the constant block and TypeToString's case labels
+	tg := parseFile("base/type.go")
+	for _, d := range tg.Decls {
+		gd, ok := d.(*ast.GenDecl)
+		if !ok || gd.Tok != token.CONST {
+			continue
+		}
+		for _, sp := range gd.Specs {
+			for _, n := range sp.(*ast.ValueSpec).Names {
+				o.TypeConsts = append(o.TypeConsts, n.Name)
+			}
+		}
+	}
+	tts := findFunc(tg, "", "TypeToString")
+	if tts == nil {
+		fail("TypeToString not found")
+	}
+	for _, cc := range switchClauses(tts, "t.tType") {
+		for _, l := range cc.List {
+			o.TTSCases = append(o.TTSCases, exprString(l))
+		}
+	}
 
 	o.MapRangeSites = mapRangeSites()
 
